@@ -208,12 +208,12 @@ def per_program(p):
 def plan(tier, seed):
     n = 100 if tier == "quick" else 2000
     depth = 4 if tier == "quick" else 6
-    return [{"seed": seed * 1000 + k, "n": n, "depth": depth} for k in range(16)]
+    return [{"seed": seed * 1000 + k, "n": n, "depth": depth, "adversarial": k % 4 == 3} for k in range(16)]
 
 
 def run_shard(shard, col):
     progs.drive_programs(col, seed=shard["seed"], n=shard["n"],
-                         spec_strategy=U.root_specs(max_depth=shard["depth"], mods=2), per_program=per_program)
+                         spec_strategy=U.root_specs(max_depth=shard["depth"], mods=3 if shard.get("adversarial") else 2, adversarial=bool(shard.get("adversarial"))), per_program=per_program)
 
 
 def replay(clause, case, col):
